@@ -310,6 +310,44 @@ def h_concrete_wide_spectrum(ctx):
     ctx.claim('rank_not_above_smallest_admissible', bool(ok_rank))
 
 
+def h_concrete_stab_dense_last(ctx):
+    """Stabilised rounding of F = e0 x e0 x 1_L + s e1 x e1 x alt_L (alt = +-1
+    alternating): both unfoldings have the singular values sqrt(L) (1, s), but
+    the weight that travels to the left through the sweep is concentrated in
+    single entries of magnitude sqrt(L), far outside [1, 2).  Accuracies placed
+    so that s sqrt(L) lies between sqrt(2) and 2 .. 4 times the per-unfolding
+    budget: both bonds must keep rank 2 and the result is exact (real code,
+    exact power-of-two bookkeeping is outside the scale-variable model: its
+    counterexamples for this family are spurious and do not replay)."""
+    ok_err, ok_rank, ok_same = True, True, True
+    for L, s_ in [(32, 0.1), (16, 0.25), (64, 0.05), (8, 0.3)]:
+        one = np.ones(L)
+        alt = np.array([(-1.) ** k for k in range(L)])
+        Y = [np.eye(2).reshape(1, 2, 2).copy(), np.array([[[1., 0.], [0., 0.]], [[0., 0.], [0., 1.]]]),
+             np.stack([one, s_ * alt]).reshape(2, L, 1).copy()]
+        F = teneva.full(Y)
+        nrm = np.linalg.norm(F)
+        sig2 = s_ * np.sqrt(L)
+        for frac in (0.55, 0.65, 0.35):                      # budget = frac * sig2 (< sig2 / sqrt(2): nothing may be cut)
+            e = frac * sig2 * np.sqrt(2.) / nrm
+            for is_eigh in (True, False):
+                Zp = teneva.truncate(Y, e, is_eigh=is_eigh)
+                Zs = teneva.truncate(Y, e, is_eigh=is_eigh, use_stab=True)
+                err = np.linalg.norm(teneva.full(Zs) - F)
+                ok_err = ok_err and err <= e * nrm * (1 + 1e-9)
+                ok_rank = ok_rank and [G.shape[2] for G in Zs[:-1]] == [2, 2]
+                ok_same = ok_same and teneva.ranks(Zs).tolist() == teneva.ranks(Zp).tolist()
+        for frac in (1.3, 2.5):                              # budget above sig2: rank 1 on both bonds is admissible
+            e = frac * sig2 * np.sqrt(2.) / nrm
+            for is_eigh in (True, False):
+                Zs = teneva.truncate(Y, e, is_eigh=is_eigh, use_stab=True)
+                ok_rank = ok_rank and [G.shape[2] for G in Zs[:-1]] == [1, 1]
+                ok_err = ok_err and np.linalg.norm(teneva.full(Zs) - F) <= e * nrm * (1 + 1e-9)
+    ctx.claim('stabilised_error_within_budget', bool(ok_err))
+    ctx.claim('stabilised_ranks_minimal', bool(ok_rank))
+    ctx.claim('stabilised_ranks_equal_plain', bool(ok_same))
+
+
 def h_concrete_add_many_numbers(ctx):
     """add_many on lists that mix TT-tensors and plain numbers, with and without a
     binding cap (real code: rounding of a sum with a constant part is not
@@ -339,6 +377,7 @@ def instances(tier):
     quick = tier == 'quick'
     out.append({'func': 'h_concrete_add_many_numbers', 'params': {}, 'opts': {'concrete_only': True}})
     out.append({'func': 'h_concrete_wide_spectrum', 'params': {}, 'opts': {'concrete_only': True}})
+    out.append({'func': 'h_concrete_stab_dense_last', 'params': {}, 'opts': {'concrete_only': True}})
     for tf, cap in [(2, 1), (1, 1), (2, 2)]:
         out.append({'func': 'h_add_many_cancel', 'params': {'trunc_freq': tf, 'cap': cap}})
     gen = [(2, 2, 2)] if quick else [(2, 2, 2), (2, 1, 2)]
